@@ -13,10 +13,13 @@ import (
 	"math/big"
 	"os"
 	"strings"
+	"sync/atomic"
 	"time"
 
 	"golang.org/x/tools/go/ssa"
 )
+
+var abortAll atomic.Bool
 
 var progress = os.Getenv("VERIF_PROGRESS") != ""
 
@@ -42,6 +45,7 @@ type Frame struct {
 	snaps  map[*ssa.BasicBlock][]loopSnap
 	caller *Frame
 	site   ssa.Instruction
+	defers []func()
 }
 
 type loopSnap struct {
@@ -117,6 +121,7 @@ type Exec struct {
 	Bound        int
 	MaxPaths     int
 	Truncated    bool
+	StoppedEarly bool
 	Deadline     time.Time
 	Merged       map[string]int
 	Unmerged     map[string]int
@@ -181,6 +186,11 @@ func (e *Exec) Explore(fn *ssa.Function) {
 			return
 		}
 		if e.cfg["stop_on_fail"] == "1" && len(e.Failures) > 0 {
+			abortAll.Store(true)
+			return
+		}
+		if e.cfg["stop_on_fail"] == "1" && abortAll.Load() {
+			e.StoppedEarly = true
 			return
 		}
 		if e.Deadline != (time.Time{}) && time.Now().After(e.Deadline) {
@@ -1209,6 +1219,38 @@ func (e *Exec) exec(fr *Frame, ins ssa.Instruction) {
 	case *ssa.TypeAssert:
 		fr.env[x] = e.typeAssert(fr, x)
 	case *ssa.RunDefers:
+		for len(fr.defers) > 0 {
+			d := fr.defers[len(fr.defers)-1]
+			fr.defers = fr.defers[:len(fr.defers)-1]
+			d()
+		}
+	case *ssa.Defer:
+		// arguments are evaluated now, the call happens at RunDefers (recover is not modelled:
+		// a panic ends the path as a failure before any deferred call would run)
+		c := x.Common()
+		if c.IsInvoke() {
+			recv := e.eval(fr, c.Value)
+			var args []Value
+			for _, a := range c.Args {
+				args = append(args, e.eval(fr, a))
+			}
+			fr.defers = append(fr.defers, func() { e.invoke(fr, x, recv.(IfaceV), c, args) })
+		} else {
+			var args []Value
+			for _, a := range c.Args {
+				args = append(args, e.eval(fr, a))
+			}
+			if fn := c.StaticCallee(); fn != nil {
+				var free []Value
+				if mc, ok := c.Value.(*ssa.MakeClosure); ok {
+					free = e.eval(fr, mc).(FuncV).Env
+				}
+				fr.defers = append(fr.defers, func() { e.callAt(fn, args, free, fr, x) })
+			} else {
+				fv := e.eval(fr, c.Value).(FuncV)
+				fr.defers = append(fr.defers, func() { e.callFuncV(fr, x, fv, args) })
+			}
+		}
 	default:
 		e.unsupported("SSA instruction %T in %s", ins, fr.fn)
 	}
@@ -1747,27 +1789,10 @@ func (e *Exec) doCall(fr *Frame, ins ssa.Instruction, c *ssa.CallCommon) Value {
 	args := make([]Value, 0, len(c.Args)+1)
 	if c.IsInvoke() {
 		recv := e.eval(fr, c.Value).(IfaceV)
-		if recv.T == nil {
-			e.fail("panic", "panic:nil-deref", e.siteOf(fr), "method call on nil interface in "+shortFn(fr.fn), e.posOf(fr, ins))
-		}
 		for _, a := range c.Args {
 			args = append(args, e.eval(fr, a))
 		}
-		if n, ok := recv.T.(*types.Named); ok && strings.HasPrefix(n.Obj().Name(), "$") {
-			key := n.Obj().Name() + "." + c.Method.Name()
-			if st, ok := opaqueMethods[key]; ok {
-				return st(e, fr, recv, args)
-			}
-			if st, ok := opaqueMethods["$*."+c.Method.Name()]; ok {
-				return st(e, fr, recv, args)
-			}
-			e.unsupported("method %s on opaque value", key)
-		}
-		fn := e.P.Prog.LookupMethod(recv.T, c.Method.Pkg(), c.Method.Name())
-		if fn == nil {
-			e.unsupported("no method %s on %s", c.Method.Name(), recv.T)
-		}
-		return e.callAt(fn, append([]Value{recv.V}, args...), nil, fr, ins)
+		return e.invoke(fr, ins, recv, c, args)
 	}
 	for _, a := range c.Args {
 		args = append(args, e.eval(fr, a))
@@ -1781,6 +1806,27 @@ func (e *Exec) doCall(fr *Frame, ins ssa.Instruction, c *ssa.CallCommon) Value {
 	}
 	fv := e.eval(fr, c.Value).(FuncV)
 	return e.callFuncV(fr, ins, fv, args)
+}
+
+func (e *Exec) invoke(fr *Frame, ins ssa.Instruction, recv IfaceV, c *ssa.CallCommon, args []Value) Value {
+	if recv.T == nil {
+		e.fail("panic", "panic:nil-deref", e.siteOf(fr), "method call on nil interface in "+shortFn(fr.fn), e.posOf(fr, ins))
+	}
+	if n, ok := recv.T.(*types.Named); ok && strings.HasPrefix(n.Obj().Name(), "$") {
+		key := n.Obj().Name() + "." + c.Method.Name()
+		if st, ok := opaqueMethods[key]; ok {
+			return st(e, fr, recv, args)
+		}
+		if st, ok := opaqueMethods["$*."+c.Method.Name()]; ok {
+			return st(e, fr, recv, args)
+		}
+		e.unsupported("method %s on opaque value", key)
+	}
+	fn := e.P.Prog.LookupMethod(recv.T, c.Method.Pkg(), c.Method.Name())
+	if fn == nil {
+		e.unsupported("no method %s on %s", c.Method.Name(), recv.T)
+	}
+	return e.callAt(fn, append([]Value{recv.V}, args...), nil, fr, ins)
 }
 
 func (e *Exec) callFuncV(fr *Frame, ins ssa.Instruction, fv FuncV, args []Value) Value {
